@@ -305,7 +305,7 @@ def systematic_single(tier: str) -> Iterable[List[int]]:
 FAMILIES = {'match.batch': fam_batch, 'match.single': fam_single}
 SYSTEMATIC = {'match.batch': systematic_batch, 'match.single': systematic_single}
 PLAN = {
-    'quick': {'match.batch': 10000, 'match.single': 4000},
+    'quick': {'match.batch': 80000, 'match.single': 32000},
     'thorough': {'match.batch': 80000, 'match.single': 30000},
 }
 THOROUGH_BUDGET_S = 600
